@@ -193,3 +193,33 @@ Example C03_refine_example :
   | Err _ _ => False
   end.
 Proof. vm_compute. repeat split; reflexivity. Qed.
+
+(* ---- beyond the refinement classes (extension round 7): the decision at a leaf, for the GENERAL merge.  Whatever tags, priorities, marks and
+   metadata the two trees carry anywhere else - the refinement theorems above restrict the whole document to a class - when the older tree
+   holds a leaf c0 at the mapping path q ([Frame.dget]) and the newer tree reaches a value v there through non-deleting mappings with unique
+   keys ([FrameRequired.nreach]; neither c0 nor v marked !del), the merged tree holds at q the content and the priority of the winner: the
+   older leaf only if its priority is STRICTLY higher, otherwise the newer value (scalar, list or mapping: replaced wholesale). ---- *)
+From AY Require Import Proofs.Frame Proofs.FrameRequired.
+Theorem C03_leaf_meeting_decided_anywhere : forall q fuel p s o r w v c0,
+  q <> [] -> on_merge [] fuel p s o = Ok (r, w) -> nreach o q v -> dget s q = Some c0 -> is_comp c0 = false ->
+  explicit_delete c0 = false -> explicit_delete v = false ->
+  let win := if has_priority_over c0 v false then c0 else v in
+  exists c', dget r q = Some c' /\ erase c' = erase win /\ f_prio (nflags c') = f_prio (nflags win).
+Proof. exact leaf_met_winner. Qed.
+Print Assumptions C03_leaf_meeting_decided_anywhere.
+
+(* non-vacuity: a !weak leaf two levels down loses to an untagged value while a !force sibling and a !del sibling mapping surround the path *)
+Example C03_leaf_meeting_example :
+  let L f v := Leaf LScalar f (SInt v) in
+  let D f ch := Comp CDict f SNone ch in
+  let s := D F0 [(KS 1, D F0 [(KS 2, L (set_prio F0 (Some (-1))) 1); (KS 3, L (set_prio F0 (Some 1)) 3)]); (KS 4, D F0 [(KS 5, L F0 5)])] in
+  let o := D F0 [(KS 4, D (set_del F0 (Some true)) [(KS 6, L F0 6)]); (KS 1, D F0 [(KS 2, L F0 7); (KS 3, L F0 8)])] in
+  nreach o [KS 1; KS 2] (L F0 7) /\ dget s [KS 1; KS 2] = Some (L (set_prio F0 (Some (-1))) 1) /\
+  has_priority_over (L (set_prio F0 (Some (-1))) 1) (L F0 7) false = false /\
+  (match on_merge [] 10 [] s o with Ok (r, _) => Some (erase r) | _ => None end)
+  = Some (PD [(KS 1, PD [(KS 2, PS (SInt 7)); (KS 3, PS (SInt 3))]); (KS 4, PD [(KS 6, PS (SInt 6))])]).
+Proof.
+  cbn zeta. split; [|split; [reflexivity|split; vm_compute; reflexivity]].
+  cbn. repeat split; try reflexivity;
+    repeat (constructor; cbn [map fst In]; try (intros [E|E]; [discriminate E|]); try tauto).
+Qed.
